@@ -202,6 +202,12 @@ func genSeedLegal(t *rapid.T) string {
 func genC09(t *rapid.T) c09Case {
 	c := c09Case{flowCase: genFlowCase(t, randomScriptOpts), Seed: genSeedLegal(t), OtherSeed: genSeedLegal(t)}
 	c.Junk = nil
+	if rapid.IntRange(0, 5).Draw(t, "headers") == 0 {
+		// header keys are case-sensitive: a start node whose headers only resemble title/tracking has no title, the same in every run
+		start := c.Script.allNodes()[0]
+		start.Headers = append(start.Headers, [2]string{"Title", start.Title}, [2]string{"TITLE", start.Title + "2"}, [2]string{"Tracking", "never"}, [2]string{"TRACKING", "always"}, [2]string{"tItLe", "x"})
+		start.Title, start.Tracking = "", ""
+	}
 	return c
 }
 
